@@ -357,6 +357,12 @@ def history_lookup_rule(P, C, rule):
                         ru = mir.strip(r)
                         cmp_ok = (field_path(l).split(".")[-1] == dfield and mir.strip(l)[0] == "field"
                                   and ru[0] == "upvar" and cb.upvar_type(ru[1]) == "i64" and ru[1] in b.find_locals(ty=r"^i64$", param=True))
+                        if not cmp_ok and field_path(l).split(".")[-1] == dfield and mir.strip(l)[0] == "field" and ru[0] == "upvar":
+                            # the search lives in a helper analysed inlined: the captured date is the helper's parameter, bound to
+                            # the date parameter of the lookup function at the call site (read from the closure's captured operands)
+                            caps = [fb.origin(mir.strip(x)) for x in (clos[4] if len(clos) > 4 else [])]
+                            dates = b.find_locals(ty=r"^i64$", param=True)
+                            cmp_ok = len(dates) == 1 and any(c_[0] in ("param", "var") and c_[1] == dates[0] and fb.root_type(c_) == "i64" for c_ in caps)
                 shape_ok = shape_ok and okf and cmp_ok
             det += "; reversed iteration with `entry.%s <= date` as the only test of every search: %s" % (dfield, shape_ok)
             # the decision is the found entry's flag: `enabled` is read in the function or one of its closures, outside the search predicates
